@@ -630,6 +630,23 @@ pub fn c07(a: &Args) -> CaseSet {
             }
         } }
     }
+    // nested call notation with ONE parenthesis deleted, at every position, and one inserted at every position
+    {
+        let t0 = std_tables()[0].clone();
+        for text in ["max(3, atan2(1,2))", "atan2(max(1,2), max(3,4))", "max(1, max(2, max(3, x)))", "max(max(max(1,2),3),x)", "sin(max(x, atan2(y, 2)))*2", "max(x,(atan2(1,y)))+1", "max((1),atan2((2),(3)))"] {
+            let chars: Vec<char> = text.chars().collect();
+            for i in 0..chars.len() { if chars[i] == '(' || chars[i] == ')' {
+                let t: String = chars[..i].iter().chain(chars[i + 1..].iter()).collect();
+                let prog = match i % 3 { 0 => Prog::Flat(t.clone()), 1 => Prog::FlatWo(t.clone()), _ => Prog::Deep(t.clone()) };
+                cs.add(&t0, prog, vec![Query::Vars], format!("[delete-paren-in-nested-calls] {t:?} (from {text:?})"), "delete-paren-in-nested-calls", 3, |obs| (Some(obs[0] == Obs::E), format!("accepted or crashed: {}", pretty_obs(&obs[0]))));
+            } }
+            for i in 0..=chars.len() { for ins in ['(', ')'] {
+                let t: String = chars[..i].iter().chain(std::iter::once(&ins)).chain(chars[i..].iter()).collect();
+                let prog = match (i + ins as usize) % 3 { 0 => Prog::Flat(t.clone()), 1 => Prog::FlatWo(t.clone()), _ => Prog::Deep(t.clone()) };
+                cs.add(&t0, prog, vec![Query::Vars], format!("[insert-paren-in-nested-calls] {t:?} (from {text:?})"), "insert-paren-in-nested-calls", 3, |obs| (Some(obs[0] == Obs::E), format!("accepted or crashed: {}", pretty_obs(&obs[0]))));
+            } }
+        }
+    }
     for _ in 0..a.n {
         let tb = pick_table(&mut r, a);
         let mut cfg = GenCfg::default_for(&tb); cfg.call_form = r.chance(1, 4);
@@ -697,6 +714,20 @@ pub fn c08(a: &Args) -> CaseSet {
             cs.add(&t0, prog, vec![Query::Vars, Query::Relaxed(2)], format!("corpus: {text}"), "corpus", 3, |_| (None, String::new()));
         }
     }
+    // calls nested into each other to great depth (two parenthesis levels per call), in the first and in the second argument,
+    // around a product with a unary function: the reference value, flat and deep
+    for &k in (if a.thorough { vec![5usize, 19, 20, 21, 22, 30, 45] } else { vec![20usize, 21, 22, 30] }).iter() {
+        for second in [true, false] {
+            let (ix_max, ix_mul, ix_sin) = (t0.iter().position(|o| o.repr == "max").unwrap(), t0.iter().position(|o| o.repr == "*").unwrap(), t0.iter().position(|o| o.repr == "sin").unwrap());
+            let inner = tbin(ix_mul, Term::Lit("2".into()), tun(ix_sin, Term::Var(0)));
+            let mut want = inner.clone(); let mut text = String::from("2*sin(x)");
+            for j in 0..k { let c = format!("{}", j % 3); if second { text = format!("max({c}, {text})"); want = tbin(ix_max, Term::Lit(c), want); } else { text = format!("max({text}, {c})"); want = tbin(ix_max, want, Term::Lit(c)); } }
+            let vars = vec!["x".to_string()];
+            for prog in [Prog::Flat(text.clone()), Prog::FlatWo(text.clone()), Prog::Deep(text.clone())] {
+                add_expect(&mut cs, &t0, prog, vec![Query::Vars, Query::Eval(1)], format!("{k} calls nested in the {} argument around 2*sin(x)", if second { "second" } else { "first" }), "deeply-nested-calls", k, &want, &vars);
+            }
+        }
+    }
     for i in 0..a.n {
         let tb = if r.chance(2, 3) { [std_tables()[0].clone(), std_tables()[1].clone(), std_tables()[2].clone()][r.below(3)].clone() } else { random_table(&mut r) };
         if !tb.iter().any(|o| o.bin.is_some() && is_alpha_name(&o.repr)) { continue }
@@ -732,6 +763,28 @@ fn subs_atom(a: &Atom, map: &[(String, Chain)]) -> Atom {
 pub fn c10(a: &Args) -> CaseSet {
     let mut cs = CaseSet::default();
     let mut r = Rng::new(a.seed ^ 0x10);
+    // a unary operator by name on FLAT expressions whose last lowest-priority operator is flagged commutative and stands
+    // between literals one of which belongs to a tighter operator (the schedule of the operand must not be reused)
+    {
+        let tb = std_tables()[0].clone();
+        for text in ["x+y/2+1", "x+y*2+3", "x+2+3*y", "x+y^2+1", "x*y^2*3", "x+1+2", "2+x+3*4", "x*2*3+1", "1+x*2*3"] {
+            set_table(&tb);
+            use exmex::Express;
+            let Ok(fx) = FE::parse_wo_compile(Box::leak(text.to_string().into_boxed_str())) else { continue };
+            let vars: Vec<String> = fx.var_names().to_vec(); let nv = vars.len();
+            let base_term = fx.eval(&symvals(nv)).unwrap();
+            for (ui, un) in ["sin", "cos", "-", "ln"].iter().enumerate() {
+                let k = tb.iter().position(|o| o.repr == *un && o.unary).unwrap();
+                let want = tun(k, base_term.clone());
+                for (bi, base) in [Prog::Flat(text.into()), Prog::FlatWo(text.into()), Prog::ToFlat(Box::new(Prog::Deep(text.into())))].into_iter().enumerate() {
+                    if (ui + bi) % 2 == 1 && !a.thorough { continue }
+                    add_expect(&mut cs, &tb, Prog::Un(un.to_string(), Box::new(base.clone())), vec![Query::Vars, Query::Eval(nv), Query::EvalVec(nv)], format!("{un} applied to the flat expression {}", pretty_prog(&base)), "unary-on-flat-with-literal-tail", 3, &want, &vars);
+                    let k2 = tb.iter().position(|o| o.repr == "cos").unwrap();
+                    add_expect(&mut cs, &tb, Prog::Un("cos".into(), Box::new(Prog::Un(un.to_string(), Box::new(base.clone())))), vec![Query::Vars, Query::Eval(nv)], format!("cos({un}(..)) applied to the flat expression {}", pretty_prog(&base)), "unary-on-flat-with-literal-tail", 3, &tun(k2, want.clone()), &vars);
+                }
+            }
+        }
+    }
     for i in 0..a.n {
         let tb = pick_table(&mut r, a);
         let mut cfg = GenCfg::default_for(&tb); cfg.vars = ["x","y","z","w","u","v"].iter().map(|s| s.to_string()).collect(); cfg.lit_bias = 4;
@@ -855,7 +908,9 @@ pub fn c11(a: &Args) -> CaseSet {
     let mut cs = CaseSet::default();
     let mut r = Rng::new(a.seed ^ 0x11);
     let t0 = std_tables()[0].clone();
-    for (e, m) in [("x^2/y/2", vec![("y", "4")]), ("x+y", vec![("x", "y"), ("y", "x")]), ("x*2", vec![("x", "x+1")]), ("x+y*z", vec![]), ("sin(x)+1+2", vec![("x", "3")])] {
+    for (e, m) in [("x^2/y/2", vec![("y", "4")]), ("x+y", vec![("x", "y"), ("y", "x")]), ("x*2", vec![("x", "x+1")]), ("x+y*z", vec![]), ("sin(x)+1+2", vec![("x", "3")]),
+                   // names whose byte order differs from their case-insensitive order
+                   ("R*a+b", vec![("a", "x+Y")]), ("x/Y-Z*w", vec![]), ("_b+B+b", vec![("b", "Z*_a")]), ("a-B", vec![("a", "B"), ("B", "a")]), ("Zeta+alpha*Beta", vec![("alpha", "Gamma-delta")])] {
         for deep in [false, true] {
             let mk = |t: &str| if deep { Prog::Deep(t.into()) } else { Prog::Flat(t.into()) };
             let p = Prog::Subs(Box::new(mk(e)), m.iter().map(|(v, t)| (v.to_string(), mk(t))).collect());
@@ -865,6 +920,7 @@ pub fn c11(a: &Args) -> CaseSet {
     for _ in 0..a.n {
         let tb = pick_table(&mut r, a);
         let mut cfg = GenCfg::default_for(&tb); cfg.lit_bias = 3;
+        if r.chance(1, 3) { cfg.vars = ["x", "Y", "z", "W", "_u", "v", "R", "a", "B_1", "b_1"].iter().map(|s| s.to_string()).filter(|v| !tb.iter().any(|o| v.starts_with(o.repr.as_str()))).collect(); }
         let (e, te, vs, _) = tree_setup(&mut r, &tb, &cfg, 10, &RenderCfg::plain());
         if vs.is_empty() { continue }
         let deep = r.chance(1, 2);
@@ -1879,7 +1935,7 @@ pub fn c06(a: &Args) -> CaseSet {
     let mut cs = CaseSet::default();
     let mut r = Rng::new(a.seed ^ 0x06);
     let tb = std_tables()[0].clone();
-    let pieces = ["x", "y", "1", "2.5", ".", "+", "-", "*", "/", "^", "sin", "cos", "(", ")", ",", "{", "}", " ", "é", "max", "atan2", "PI", "e", "α", "$", "\u{7}", "{a b}", "1e5", "..", "=", "[", "]", "😀", "𝑥", "€", "\u{a0}"];
+    let pieces = ["x", "y", "1", "2.5", ".", "+", "-", "*", "/", "^", "sin", "cos", "(", ")", ",", "{", "}", " ", "é", "max", "atan2", "PI", "e", "α", "$", "\u{7}", "{a b}", "1e5", "..", "=", "[", "]", "😀", "𝑥", "€", "²", "½", "٣", "①", "１", "Ⅷ", "¹", "\u{a0}"];
     let n_model = a.n;
     for i in 0..n_model {
         let len = if i % 5 == 0 { 8 + r.below(20) } else { 1 + r.below(7) };
@@ -1898,8 +1954,8 @@ pub fn c06(a: &Args) -> CaseSet {
         cs.add(&tb, p, qs, format!("{text:?}"), "token-pieces", len.max(2), |obs| { let bad = obs.iter().any(|o| *o == Obs::P); (Some(!bad), if bad { "a call panicked".into() } else { String::new() }) });
     }
     // part 2: exhaustive over short strings, implementation only (counted, not written to the Coq shards)
-    let alpha_f = ["x", "1", ".", "+", "-", "*", "sin", "(", ")", ",", "{", "}", " ", "é", "min", "^", "e", "2.5", "😀", "y"];
-    let alpha_v = ["x", "1", "+", "-", "%", "(", ")", ",", "[", "]", " ", "if", "else", "true", "to_int", "1e10", ".", "<<", "𝑥", "abs"];
+    let alpha_f = ["x", "1", ".", "+", "-", "*", "sin", "(", ")", ",", "{", "}", " ", "é", "min", "^", "e", "2.5", "😀", "y", "½"];
+    let alpha_v = ["x", "1", "+", "-", "%", "(", ")", ",", "[", "]", " ", "if", "else", "true", "to_int", "1e10", ".", "<<", "𝑥", "abs", "٣"];
     let maxlen = if a.thorough { 4 } else { 3 };
     let (mut count, mut panics) = (0u64, 0u64);
     for (which, alphabet) in [(0, &alpha_f[..]), (1, &alpha_v[..])] {
